@@ -813,6 +813,9 @@ func (g *gen) genStream(k *Key) string {
 		shapes = shapes[:len(shapes)-1]
 	}
 	shape := shapes[g.r.Intn(len(shapes))]
+	if shape == "empty" && g.o.MinValueBytes > 0 {
+		shape = "samefields" // an emptied stream cannot be grown to a minimum size
+	}
 	n := 1 + g.r.Intn(6)
 	if shape == "empty" {
 		n = 0
@@ -852,7 +855,7 @@ func (g *gen) genStream(k *Key) string {
 		case g.r.Intn(2) == 0:
 			seq++
 		default:
-			if ms < math.MaxUint64-2 {
+			if ms < math.MaxUint64-1001 {
 				ms += 1 + uint64(g.r.Intn(1000))
 				seq = 0
 			} else {
